@@ -143,10 +143,8 @@ func (s *Service) CopyWithOptions(options ServiceOptions, targetOptions TargetOp
 		return nil, err
 	}
 
-	service.active = s.active
-	service.rollout = s.rollout
+	service.active, service.rollout, service.rolloutController = s.loadBalancers()
 	service.pauseController = s.pauseController
-	service.rolloutController = s.rolloutController
 
 	return service, service.initialize()
 }
